@@ -111,7 +111,9 @@ impl Pattern {
                 let is_unbounded = repetition.max.is_none();
                 let is_greedy = repetition.greedy;
 
-                is_dot && is_unbounded && is_greedy
+                // Also look into the repeated expression: `(a.*)+` contains a greedy dot
+                // repetition just like `a.*` does.
+                (is_dot && is_unbounded && is_greedy) || Self::has_greedy_all(&repetition.sub)
             }
             HirKind::Empty => false,
             HirKind::Literal(_literal) => false,
